@@ -122,6 +122,16 @@ theorem readlines_lossless (s : Text) : (splitLines s).flatten = s := splitLines
 theorem lines_candidate (s : Text) (st : BS) (h : st.Inv) (hn : st.instances = (splitLines s).length) :
     let out := (linesPass.transform s st).2.1
     out.Sublist s ∧ out ≠ s := P.lines_candidate s st h hn
+/-- LineMarkersPass: for a well-formed cursor over the marker lines of the file, a candidate is the file minus exactly
+    `end − index ≥ 1` whole lines the marker pattern matches; every line it does not match stays, in order -/
+theorem line_markers_candidate (s : Text) (st : BS) (h : st.Inv) (hn : st.instances = markerCount Gen.lineMarkersRx s) :
+    let kept := dropMarkers Gen.lineMarkersRx st.index st.end_ (splitLines s) 0
+    let out := (lineMarkers.transform s st).2.1
+    out = kept.flatten ∧ out.Sublist s ∧ out ≠ s ∧
+    kept.filter (fun l => !lineSearches Gen.lineMarkersRx l) = (splitLines s).filter (fun l => !lineSearches Gen.lineMarkersRx l) ∧
+    kept.length + (st.end_ - st.index) = (splitLines s).length :=
+  Cvise.P.line_markers_candidate s st h hn
+
 theorem blank_candidate (s : Text) (id : Nat) (out : Text) (h : blankOne s id = some out) : out.Sublist s ∧ out ≠ s :=
   P.blank_candidate s id out h
 theorem includes_candidate (s : Text) (st : Nat) (out : Text) (st' : Nat)
